@@ -48,6 +48,14 @@ CLAIMED["C15"] = dict(
     technique=TECH + ": store-history simulation against a reference model with growth knobs and store-full faults",
 )
 
+CLAIMED["C08"] = dict(
+    level="exploration",
+    text="The defer_op protocol is an interaction with a second party, so it is simulated with a scripted, recording host: (A) the complete instruction x type-pair matrix (40 instructions, 36 representative values of all 19 data types) is swept on every invocation under hosts {absent, declining, accepting, failing} on both implementations — call count, instruction, operand identity and order, unit result, depth, use of the host's value, absent == declining, no call for defined pairs, the unsupported-types code never escaping; (B) seeded programs whose identifiers resolve to values of every type are monitored step by step against the same table. The matrix part is exhaustive over its finite table; the program part samples.",
+    design="DESIGN.md §5 C08",
+    note="Trusted: spec/defined_ops.json (which combinations the language defines: recorded from the pinned runtime, compared by hand with the match arms, two hand corrections), the recording host, the structural reader. What a defined operation returns is not judged.",
+    technique=TECH + ": scripted second party (host) with recorded call histories over the full operation matrix and seeded programs",
+)
+
 NOT_APPLICABLE = {
     "C01": "pure function of (source text, input value, data implementation): no schedule, fault, configuration or second party in the statement — input generation, not simulation",
     "C02": "parse is a pure function of the token sequence; deciding it means enumerating operator pairs/triples, not simulating anything",
@@ -64,7 +72,6 @@ NOT_APPLICABLE = {
 }
 
 PENDING = {
-    "C08": "claimed in DESIGN.md; check not built yet in this commit (simulation target: defer_op protocol with the host as second party)",
     "C10": "claimed in DESIGN.md; check not built yet in this commit (simulation target: host-call histories)",
     "C17": "claimed in DESIGN.md; check not built yet in this commit (simulation target: host-call histories)",
 }
